@@ -90,20 +90,20 @@ theorem tp_succ {k : Nat} (ihA : TAk fl mo tmpl max prog F k) (ihD : TDk fl mo t
         simp only [Option.some.injEq, Prod.mk.injEq] at hd
         exact Or.inl hd.1.symm
       · rw [nocut' rfl hid rfl] at hd
-        have hf : afterChild ({ ({ id := id, delayed := (it :: its').map (fun it => Thunk.clause (clauseOf it.1) (argList g) K env id) } : Pr) with cutParent := none }) =
-            ({ id := id, delayed := its'.map (fun it => Thunk.clause (clauseOf it.1) (argList g) K env id) } : Pr) := by
+        have hf : afterChild ({ ({ id := id, delayed := (it :: its').map (fun it => Thunk.clause it.1 (argList g) K env id) } : Pr) with cutParent := none }) =
+            ({ id := id, delayed := its'.map (fun it => Thunk.clause it.1 (argList g) K env id) } : Pr) := by
           simp [afterChild]
         rw [hf] at hd
         simp only [List.map_cons] at hd
         have hidn : id ∉ lv.map Prod.fst := by
           intro hmem
           exact hid ⟨hid0, by simpa using hmem⟩
-        have hgA : GoodA fl F k (Thunk.clause (clauseOf it.1) (argList g) K env id)
-            { id := id, delayed := its'.map (fun it => Thunk.clause (clauseOf it.1) (argList g) K env id) }
+        have hgA : GoodA fl F k (Thunk.clause it.1 (argList g) K env id)
+            { id := id, delayed := its'.map (fun it => Thunk.clause it.1 (argList g) K env id) }
             (lv.map Prod.fst) (tick m) := by
           intro x mx hx
           rw [← hf] at hx
-          exact hgood x mx (.nocut (ts := its'.map (fun it => Thunk.clause (clauseOf it.1) (argList g) K env id)) rfl hid rfl hx)
+          exact hgood x mx (.nocut (ts := its'.map (fun it => Thunk.clause it.1 (argList g) K env id)) rfl hid rfl hx)
         rcases ihA it its' id g K env R q nv n d r lv (tick m) sig m' ans0 hd hgA hans hid0 hidn hshape hsim hs
           hok (stOK_tick hst) hlt with hill | hm
         · exact Or.inl hill
